@@ -239,7 +239,7 @@ func c01Handlers(c *ev.Ctx, k c01Case) {
 	var hs []gensign.Handler
 	var stubs []*stubHandler
 	firstAccept := -1
-	slowList := false
+	slowList, genFails := false, false
 	for i, h := range k.Handlers {
 		switch h {
 		case "A", "R", "Rplain", "Rwrapped", "Rvalue":
@@ -248,6 +248,16 @@ func c01Handlers(c *ev.Ctx, k c01Case) {
 			hs = append(hs, s)
 			if h == "A" && firstAccept < 0 {
 				firstAccept = i
+			}
+		case "Ag", "Age":
+			// a handler that authenticates the request and then cannot produce a signing request (error / no keys): the run
+			// ends there; no OTHER handler - none of which authenticated anything - may generate in its place
+			s := &stubHandler{name: fmt.Sprintf("stub%d", i), accept: true, log: &e.log, script: map[string]string{"Generate": map[string]string{"Ag": "err", "Age": "empty"}[h]}}
+			stubs = append(stubs, s)
+			hs = append(hs, s)
+			if firstAccept < 0 {
+				firstAccept = i
+				genFails = true
 			}
 		case "S", "SR":
 			// a slow handler: its Authenticate answers (accept / reject) only after most of the request's deadline has passed
@@ -324,6 +334,21 @@ func c01Handlers(c *ev.Ctx, k c01Case) {
 			if s != nil && s.GenCalls > 0 {
 				c.Violation("C01:handlers:generate-without-auth", fmt.Sprintf("Generate was called on handler %d although nothing authenticated", i), k)
 			}
+		}
+		return
+	}
+	if genFails {
+		c.Outcome("handlers/generate-fails/" + errType(err))
+		if err == nil {
+			c.Violation("C01:handlers:success-although-generation-failed", fmt.Sprintf("handler %d authenticated and failed to generate, the run reported success (%v)", firstAccept, k.Handlers), k)
+		}
+		for i, s := range stubs {
+			if s != nil && i != firstAccept && s.GenCalls > 0 {
+				c.Violation("C01:handlers:generate-without-auth", fmt.Sprintf("Generate was called on handler %d, whose Authenticate never succeeded (handler %d authenticated and failed to generate; %v)", i, firstAccept, k.Handlers), k)
+			}
+		}
+		if len(e.ca.Reqs) != 0 || adds != 0 {
+			c.Violation("C01:handlers:signed-for-unauthenticated-handler", fmt.Sprintf("handler %d authenticated and failed to generate, yet CA calls=%d agent adds=%d (%v)", firstAccept, len(e.ca.Reqs), adds, k.Handlers), k)
 		}
 		return
 	}
@@ -436,7 +461,7 @@ func c01Rotation(c *ev.Ctx, k c01Case) {
 
 func checkC01(c *ev.Ctx) {
 	defer cleanupScratch()
-	c.Rule("real gensign.Run + regular.Handler (built by NewHandler from a JSON config) over a scripted forwarded agent and a recording CA: single runs = full product login{alice,bob,ünï} x policy{NONS,NSOK} x hard-key x params{set,nil,without client attributes} x client claim{self,mallory} x key directory{none,.pub,bare,both,unparsable,other user,directory,another user's key; near-miss file names of other users (other case, prefix, suffix, stray dot/space) for 5 login names} x agent{honest with key, without, signs with another key, signs other data, garbage, empty, failure, close}; handler lists = every list of length 0..3 over {accepting stub, rejecting stub (typed error; in the first two positions also plain, wrapped and by-value errors), stub whose Authenticate crashes, real handler} x real handler ok/not, plus 7 lists with one or two handlers each of which answers only after 2.6 s of a 4 s request deadline (real time); run sequences of length 2 (thorough 3) over {honest, replay, other data, failure}, and key-rotation sequences (registered key file replaced in place between runs; old key must be refused by the long-lived and by a fresh handler, new key accepted). Oracle: independent proof-of-possession predicate; challenge = bytes drawn from the csprng seam in this run. non-trivial = run with a valid proof of possession or a handler list; distinct by case")
+	c.Rule("real gensign.Run + regular.Handler (built by NewHandler from a JSON config) over a scripted forwarded agent and a recording CA: single runs = full product login{alice,bob,ünï} x policy{NONS,NSOK} x hard-key x params{set,nil,without client attributes} x client claim{self,mallory} x key directory{none,.pub,bare,both,unparsable,other user,directory,another user's key; near-miss file names of other users (other case, prefix, suffix, stray dot/space) for 5 login names} x agent{honest with key, without, signs with another key, signs other data, garbage, empty, failure, close}; handler lists = every list of length 0..3 over {accepting stub, rejecting stub (typed error; in the first two positions also plain, wrapped and by-value errors), stub whose Authenticate crashes, real handler} x real handler ok/not, plus 9 lists whose first accepting handler then fails to generate (error / no keys) in front of other handlers, plus 7 lists with one or two handlers each of which answers only after 2.6 s of a 4 s request deadline (real time); run sequences of length 2 (thorough 3) over {honest, replay, other data, failure}, and key-rotation sequences (registered key file replaced in place between runs; old key must be refused by the long-lived and by a fresh handler, new key accepted). Oracle: independent proof-of-possession predicate; challenge = bytes drawn from the csprng seam in this run. non-trivial = run with a valid proof of possession or a handler list; distinct by case")
 	c.Assume("statistical quality of the OS CSPRNG is trusted; 'fresh' is decided as 'the 64 bytes drawn from crypto/rand during this Authenticate call'", "key files are looked up as '<name>.pub' then '<name>' (documented order)")
 	if c.ReplayCase != nil {
 		var k c01Case
@@ -536,7 +561,14 @@ func checkC01(c *ev.Ctx) {
 	for _, l := range slow {
 		c01Handlers(c, c01Case{Kind: "handlers", Handlers: l, RealOK: false})
 	}
-	c.Set("handler_lists", len(lists)*2+len(slow))
+	// the first accepting handler cannot generate (error / no keys), in front of rejecting, accepting and real handlers
+	genfail := [][]string{{"Ag", "R"}, {"Ag", "A"}, {"R", "Ag", "R"}, {"Ag", "real"}, {"Age", "R"}, {"Age", "A"}, {"Ag", "Rplain", "A"}, {"Ag"}, {"R", "Age", "real"}}
+	for _, l := range genfail {
+		for _, ok := range []bool{true, false} {
+			c01Handlers(c, c01Case{Kind: "handlers", Handlers: l, RealOK: ok})
+		}
+	}
+	c.Set("handler_lists", len(lists)*2+len(slow)+2*len(genfail))
 	c.Sample(c01Case{Kind: "handlers", Handlers: []string{"R", "real", "A"}, RealOK: true})
 	// run sequences
 	beh := []string{"honest-with-key", "replay", "sign-other-data", "failure"}
